@@ -39,7 +39,15 @@ def main(tier, only):
                 if tier == "quick" and gsrc >= 2:
                     ex["VERIF_INPSET"] = "0,5,11"      # malformed / missing grammar: the answer does not depend on the input
                 cfgs.append(dict(tag="cmd%d.g%d.f%d" % (cmd, gsrc, c1file),
-                                 env=dict(ex, VERIF_FIX="0=%d,1=%d,3=%d" % (cmd, gsrc, c1file), VERIF_WORK=wd), only=None, timeout=to))
+                                 env=dict(ex, VERIF_FIX="0=%d,1=%d,3=%d" % (cmd, gsrc, c1file), VERIF_WORK=wd), only=["cli"], timeout=to))
+    # solve / repair / mutate: they run the solver loop (internal wall-clock timeouts)
+    for cmd in range(3):
+        for gsrc in range(4):
+            if tier == "quick" and gsrc == 1:
+                continue
+            cfgs.append(dict(tag="gen%d.g%d" % (cmd, gsrc), env={"VERIF_GEN_FIX": "0=%d,1=%d%s" % (cmd, gsrc, ",3=0" if tier == "quick" else ""), "VERIF_WORK": wd,
+                                                                 "VERIF_GEN_INPUTS": "0,3,7" if tier == "quick" else "0,2,3,5,7,11"},
+                             only=["cli_gen"], timeout=to, timing_dependent=True))
     if tier == "quick":
         run.extra["quick_tier_restriction"] = "second constraint slot restricted to {none, syntax error, extension semantic predicate}; 11 of the 15 inputs (3 when the grammar is malformed or missing)"
     run.bounds = dict(scenarios="3 commands (check, parse, find) x 4 grammar sources (file, --grammar, malformed file, missing) x 9x2 x 9x2 constraint slots "
@@ -49,7 +57,10 @@ def main(tier, only):
     run.trusted = ["expected exit code computed from the documented contract with checks/refsem.py and the Earley parser for membership"]
     run.assumptions = ["[decoder]: the solver enumerates the scenario vectors; isla.cli.main runs natively in-process with captured stdout/stderr",
                        "all given constraints are combined by conjunction (property text)"]
-    run.outside = ["solve/fuzz/repair/mutate/create commands (they run the solver loop, see C01/C02; repair/mutate raise TypeError from the installed `returns` library on the unchanged tree)",
+    run.bounds["generation_commands"] = ("solve (-n 3 -t 10), repair and mutate (-t 5) x grammar sources x 9 constraint slots x -c / .isla file x 3 -> 6 inputs x file / --input-string: "
+                                         "exit 2 / 65 as above, otherwise 0 or 1, never a traceback; every printed solution / repaired / mutated input satisfies the constraint (oracle and `isla check`); "
+                                         "a non-member input gives 1; repair leaves a valid input unchanged")
+    run.outside = ["fuzz/create commands, longer solution sequences of solve (see C01/C02)",
                    "argparse itself, other option combinations, real file-system errors"]
     res = xh.check_many("C19", HARNESS, cfgs, twin_timeout=120)
     xh.record(run, res, "", keyfn)
